@@ -262,7 +262,7 @@ fn collect(specs: &[Spec]) -> (Vec<ClientCase>, Vec<Value>) {
         };
         match spec {
             Spec::PSpace { max_fields, recursion } => {
-                for p in crate::pspace::patterns(*max_fields, *recursion) {
+                for p in crate::pspace::patterns(*max_fields, *recursion).into_iter().chain(crate::pspace::long_patterns(crate::pspace::LONG_MAX)) {
                     let (gr, pres, _) = crate::pspace::build(&p);
                     add(gr, pres, &mut out);
                 }
@@ -284,6 +284,15 @@ fn collect(specs: &[Spec]) -> (Vec<ClientCase>, Vec<Value>) {
                 for (j, gr) in list.into_iter().enumerate() {
                     let pres = if j == 0 { Presentation::plain(&gr) } else { Presentation::rotating(&gr, j as u64) };
                     add(gr, pres, &mut out);
+                }
+            }
+            Spec::Files { .. } => {
+                for (_, src) in crate::corpus::accepted_repo_sources() {
+                    if let Some(c) = crate::gramsweep::case_from_source(&src) {
+                        let mut pres = c.pres.clone();
+                        pres.names.retain(|k, _| !(k.starts_with('p') || k.starts_with('a')));
+                        add(c.g.clone(), pres, &mut out);
+                    }
                 }
             }
         }
